@@ -18,6 +18,7 @@ pub fn generate(suite: &str, rng: &mut Rng, thorough: bool) -> (&'static str, Ve
         "pair" => ("E2C", pair::generate(rng, thorough)),
         "backlog" => ("E3C", session::generate_backlog(rng, thorough)),
         "decide" => ("E3C", decide::generate(rng, thorough)),
+        "early" => ("E3C", decide::generate_early(rng, thorough)),
         "emit" | "signals" | "wdgram" | "client" | "credit" => ("E2C", misc::generate(rng, thorough, suite)),
         "streams" | "foreign" | "unknown_uni" | "stall" | "pace" | "requests" => ("E2C", streams::generate(rng, thorough, suite)),
         "trace" | "cell" => ("E3C", trace::generate(rng, thorough, suite)),
@@ -31,6 +32,7 @@ pub async fn exec(f: u32, args: &Args) -> Args {
         602 => session::exec_602(args).await,
         611 => control::exec(args).await,
         621 => streams::exec(args).await,
+        622 => decide::exec_early(args).await,
         631 => misc::exec_emit(args).await,
         632 => misc::exec_open_credit(args).await,
         641 => misc::exec_signals(args).await,
@@ -53,6 +55,7 @@ pub fn oracle(f: u32, args: &Args, out: &Args) -> Option<(&'static str, String)>
         602 => session::oracle_602(args, out),
         611 => control::oracle(args, out),
         621 => streams::oracle(args, out),
+        622 => decide::oracle_early(args, out),
         631 | 632 | 641 | 651 | 661 => misc::oracle(f, args, out),
         671 => pair::oracle(args, out),
         673 => decide::oracle(args, out),
